@@ -375,21 +375,28 @@ def sweep(run, tier, rng):
     assert (1e-4).hex() == "0x1.a36e2eb1c432dp-14" and (0.01).hex() == "0x1.47ae147ae147bp-7" and (1e10).hex() == "0x1.2a05f20000000p+33"
     reps = 150 if tier == "quick" else 3000
     cases = []
-    for t in range(reps):
-        n_particles = rng.choice([4, 8, 16, 10, 25])
-        T = rng.choice([1, 2, 3, 5, 8])
+    for t in range(reps + 8):
+        # the last eight cases are plateau pools with an exact ESS tie; they draw from their own generator so that the main sequence stays as it is
+        rg = rng if t < reps else random.Random(977 + t)
+        n_particles = rg.choice([4, 8, 16, 10, 25])
+        T = rg.choice([1, 2, 3, 5, 8])
         # the ESS target ess_ratio * n_particles is in general not a whole number (0.37*10 = 3.7; 0.29*25 = 7.25; 1.7*10 = 17)
-        ess_ratio = rng.choice([0.5, 1.0, 2.0, 3.0, 0.37, 0.29, 1.7, 2.45])
-        vv = rng.choice([None, None, 0.1, 0.5, 1.0])
-        synth_kind = rng.choice([None, None, "noise", "decreasing", "bumpy", "cliff"])
+        ess_ratio = rg.choice([0.5, 1.0, 2.0, 3.0, 0.37, 0.29, 1.7, 2.45])
+        vv = rg.choice([None, None, 0.1, 0.5, 1.0])
+        synth_kind = rg.choice([None, None, "noise", "decreasing", "bumpy", "cliff"])
         # every 7th pool is extremely peaked (log-likelihood range 1e6): the ESS-limited step is below the search resolution
-        st, betas = build(rng, T, n_particles, spread=1e6 if t % 7 == 6 else 5.0)
-        bp = rng.choice([betas[-1], 0.0, rng.random(), 1.0, 0.9999, 1 - 5e-5])
+        st, betas = build(rg, T, n_particles, spread=1e6 if t % 7 == 6 else 5.0)
+        bp = rg.choice([betas[-1], 0.0, rg.random(), 1.0, 0.9999, 1 - 5e-5])
         if t % 7 == 6:
-            ess_ratio, bp = rng.choice([0.5, 0.37]), rng.choice([0.0, betas[-1]])
+            ess_ratio, bp = rg.choice([0.5, 0.37]), rg.choice([0.0, betas[-1]])
+        if t >= reps:
+            # a plateau: every stored log-likelihood equal (ESS = pool size at every temperature), and an ESS target equal to the pool size: an exact tie
+            for k_ in range(len(st._history["logl"])):
+                st._history["logl"][k_] = np.full(len(st._history["logl"][k_]), (-1.0, 3.5)[t % 2])
+            ess_ratio, vv, synth_kind, bp = float(T), None, None, 0.0
         st.set_current("beta", float(bp))
         st.set_current("iter", T)
-        synth = SynthOracle(rng, T * n_particles, synth_kind) if synth_kind else None
+        synth = SynthOracle(rg, T * n_particles, synth_kind) if synth_kind else None
         what = dict(n_particles=n_particles, T=T, ess_ratio=ess_ratio, volume_variation=vv, beta_prev=bp,
                     oracle=synth_kind or "real pool", seed_case=t)
         try:
@@ -400,7 +407,7 @@ def sweep(run, tier, rng):
                 e1 = float(res["real"](1.0)[1])
                 e0 = float(res["real"](0.0)[1])
                 if e1 * 1.01 < e0:
-                    ess_ratio = e1 * (1.0 + rng.choice([0.001, 0.004, 0.009])) / n_particles
+                    ess_ratio = e1 * (1.0 + rg.choice([0.001, 0.004, 0.009])) / n_particles
                     st.set_current("beta", 0.0)
                     st.set_current("iter", T)
                     what = dict(what, ess_ratio=ess_ratio, beta_prev=0.0, target_just_above_ess_at_one=True)
